@@ -501,7 +501,7 @@ def emit_source(case):
               'class SubOutput(pyrtl.Output):', '    pass']
     pk = pkinds_of(case)
     if 'memread' in pk:
-        L.append("fm = pyrtl.MemBlock(bitwidth=1, addrwidth=1, name='fm', asynchronous=True)   # 1-bit flag table")
+        L.append("fm = pyrtl.MemBlock(bitwidth=1, addrwidth=1, name='fm', asynchronous=True, max_read_ports=None)   # 1-bit flag table")
     for i in range(case['npred']):
         k = pk[i]
         if k == 'in':
